@@ -238,3 +238,43 @@ def long_pair_graph(rng, dn, strings=False):
         presence[(x, y)] = set(rng.sample(range(base, t), k))
     G, m = graph_from_presence(dn, directed, presence, rng=rng)
     return G, m, list(m.nodes), presence
+
+
+def call_with_defaults(rng, fn, fixed, optional, defaults):
+    """fn(*fixed, <optional arguments>) where an optional argument whose value IS its documented default is left
+    out half of the time and the others are passed by keyword or, when nothing before them was left out, by
+    position (the documented names and defaults are part of the interface)"""
+    names = list(defaults)
+    vals = dict(zip(names, optional))
+    keep = [n for n in names if not (vals[n] is defaults[n] or (vals[n] == defaults[n] and
+                                                                type(vals[n]) is type(defaults[n])))
+            or rng.random() < 0.5]
+    pos, kw = [], {}
+    positional_ok = rng.random() < 0.5
+    for i, n in enumerate(names):
+        if n not in keep:
+            positional_ok = False
+            continue
+        if positional_ok:
+            pos.append(vals[n])
+        else:
+            kw[n] = vals[n]
+    return fn(*fixed, *pos, **kw)
+
+
+TRP_DEFAULTS = dict(v=None, start=None, end=None, sample=1)
+ATRP_DEFAULTS = dict(start=None, end=None, sample=1, min_t=None)
+DAG_DEFAULTS = dict(v=None, start=None, end=None)
+
+
+def trp(al, rng, G, u, v=None, start=None, end=None, sample=1):
+    return call_with_defaults(rng, al.time_respecting_paths, (G, u), (v, start, end, sample), TRP_DEFAULTS)
+
+
+def atrp(al, rng, G, start=None, end=None, sample=1, min_t=None):
+    return call_with_defaults(rng, al.all_time_respecting_paths, (G,), (start, end, sample, min_t), ATRP_DEFAULTS)
+
+
+def tdag(al, rng, G, u, v=None, start=None, end=None):
+    return call_with_defaults(rng, al.temporal_dag, (G, u), (v, start, end), DAG_DEFAULTS)
+
